@@ -60,7 +60,7 @@ class C05(core.Check):
         'org:zone-offset-0', 'org:zone-offset-last', 'org:zone-offset-past', 'org:bare-after-zone', 'org:GLOBAL-relative',
         'same-zone>=3-stretches', 'create:valid', 'create:outside-global', 'create:duplicate', 'create:inverted',
         'create:beyond-width', 'layout:global-redefined', 'layout:overlapping', 'layout:adjacent', 'layout:nested',
-        'include-from-zone', 'include-from-zone-then-continue', 'org:zone-offset-negative', 'zone-switch-in-unselected-branch', 'isa-zone:inverted', 'isa-zone:beyond-width', 'inverted-by-1', 'expect:ACCEPT', 'expect:REJECT']}
+        'include-from-zone', 'include-from-zone-then-continue', 'org:zone-offset-negative', 'org:bare-literal-inside-selected-zone', 'zone-switch-in-unselected-branch', 'isa-zone:inverted', 'isa-zone:beyond-width', 'inverted-by-1', 'expect:ACCEPT', 'expect:REJECT']}
 
     def build(self, rng, directed=None):
         addr_bits = rng.choice([8, 10, 12, 16])
@@ -195,6 +195,22 @@ class C05(core.Check):
             main.append({'k': 'org', 'addr': room + rng.choice([1, 1, 2]), 'zone_name': z})
             stretch(rng.randrange(1, 3), main)
             tags.add('org:zone-offset-past')
+        if d == 'bare-org-into-zone':
+            # a bare origin whose literal address lies inside the selected named zone is still absolute and reverts to GLOBAL:
+            # the zone's own cursor stays where it was, GLOBAL goes on from the new address
+            cand = sorted(n for n in zt if n != 'GLOBAL' and cursor[n] + 10 <= zt[n][1] and cursor[n] + 10 <= G[1] and cursor[n] >= zt[n][0])
+            if cand:
+                z = rng.choice(cand)
+                main.append({'k': 'memzone', 'name': z})
+                stretch(2, main)
+                a = cursor[z] + 2 + 4
+                main.append({'k': 'org', 'addr': a, 'zone_name': None})
+                stretch(2, main)
+                main.append({'k': 'memzone', 'name': z})
+                stretch(2, main)
+                main.append({'k': 'memzone', 'name': 'GLOBAL'})
+                stretch(1, main)
+                tags.add('org:bare-literal-inside-selected-zone')
         if d == 'org-below':
             # a negative zone-relative origin: the bytes land below the zone's first address (still inside GLOBAL)
             cand = sorted(n for n in zt if n != 'GLOBAL' and zt[n][0] - 4 >= G[0])
@@ -302,7 +318,7 @@ class C05(core.Check):
         n = 400 if tier == 'quick' else 9000
         for i in range(n_pre + n):
             rng = core.rng_for(0 if i < n_pre else seed, self.pid, i)
-            d = ['at-end', 'past-end', None, 'org-past', 'org-below'][i % 5] if i < n_pre else rng.choice(['at-end', 'past-end', 'org-past', 'org-below', None, None, None])
+            d = ['at-end', 'past-end', None, 'org-past', 'org-below', 'bare-org-into-zone'][i % 6] if i < n_pre else rng.choice(['at-end', 'past-end', 'org-past', 'org-below', 'bare-org-into-zone', None, None, None])
             yield self.build(rng, d)
         for i in range(140 if tier == 'quick' else 1400):
             rng = core.rng_for(0 if i < 140 else seed, self.pid, 'inv', i)
